@@ -51,6 +51,24 @@ PROPS = {
         "rule": "generated images x options with the four reduction switches cycling through all 16 subsets x interlace keep/0/1 x alpha; observed = images submitted to evaluators + serialised image; "
                 "distinct = distinct lineage requests",
     },
+    "C12": {
+        "lean": ["OxiModel.Props.C12"],
+        "needs_binary": True,
+        "streams": [{"name": "corr-io", "quick": 30, "thorough": 30}],
+        "oracles": [],
+        "claim": "Lean 4 theorems about the I/O automaton (which system calls touch input, destination and standard output, in which order, and what a failure of each leads to) for EVERY routing, input kind, "
+                 "--preserve setting, fault position k and fault kind: no mutating call belongs to the phase before the complete output exists (only the --dir mkdir); a kill or fatal error at any call of that "
+                 "phase executes no mutating call at all; --pretend, an invalid input and 'no improvement in place' never write, under any fault; the input is opened exactly once, read-only; an error on "
+                 "create/chmod/write/utimens/stdout-write/mkdir always yields exit status 1; --preserve puts chmod before the data and utimens after the close. The REAL executable is run under strace: its "
+                 "system-call skeleton must equal the model's program for all 30 configurations, and for every call index k an injected EIO/ENOSPC/EACCES (strace inject) or SIGKILL at exactly that call must give "
+                 "the exit status the model predicts; files are snapshotted (content, mtime, mode) to check 'unchanged before the first mutation', input never opened for writing, preserved attributes.",
+        "note": "Partial: kernel file semantics are the abstract ones (K1); page cache, close()-time errors of real file systems and short writes are not exhibited. After a failed write the bytes on disk are "
+                "unconstrained (BufWriter retries on drop): only 'reported' and 'nothing before computed' are claimed. In-place writes are not atomic (kill during the write phase can lose the file) - outside the property.",
+        "technique": "Lean 4 proof (I/O automaton, all fault positions) + fault enumeration on the real binary with strace injection",
+        "partial_note": "kernel semantics, page cache, close-time errors are outside the model",
+        "rule": "{in place, --out, --dir, --stdout, --pretend} x {improvable, not improvable, invalid} x {--preserve on/off}; per configuration every call index of the skeleton x {one errno (thorough: EIO, ENOSPC, EACCES), SIGKILL}; "
+                "distinct = distinct configurations",
+    },
     "C13": {
         "lean": ["OxiModel.Props.C13"],
         "streams": [{"name": "corr-deadline", "quick": 120, "thorough": 1500}],
